@@ -84,6 +84,26 @@ static Plan gen_c06(uint64_t seed, int64_t index, bool thorough)
         int n = rng.range(0, 30);
         for (int i = 0; i < n; ++i) op.raw += " \t\n\r\x0b\x0c"[rng.below(6)];
     }
+    else if (k < 89)
+    {
+        // one very long token: lengths around the 16-bit boundary and beyond
+        mode = "long_lexeme";
+        sh.budget = 6;
+        sh.buffers = { BUF_SIM, BUF_STRING, BUF_VIEW };
+        sh.p_verbose = 0;
+        std::vector<std::string> lk = keys_for({ "G1", "G2", "G4", "G5", "G6", "G7", "G9" });
+        key = rng.pick(lk);
+        m = model_for(grammar_of(key));
+        op = make_sentence_op(rng, key, sh);
+        static const std::vector<int> lens = { 65535, 65536, 65537, 70000, 131072, 131077 };
+        bool ok = false;
+        for (int tries = 0; tries < 6 && !ok; ++tries)
+        {
+            op = make_sentence_op(rng, key, sh);
+            ok = stretch_one_lexeme(op, rng, *m, size_t(rng.pick(lens)));
+        }
+        if (!ok) mode = "clean";
+    }
     else
     {
         mode = "grow";
@@ -104,7 +124,7 @@ static std::vector<Violation> case_c06(const Plan& p, CaseCtx& cx)
     std::vector<Violation> vs;
     RunResult rr = exec_plan(p, kFlags);
     const OpResult& o = rr.tasks[0][0];
-    account(cx, p, rr, o.rend.faults_fired > 0 || p.mode == "soup" || p.mode == "grow" || p.mode == "regex_soup" || p.mode == "whitespace_only" || p.mode == "regex_empty");
+    account(cx, p, rr, o.rend.faults_fired > 0 || p.mode == "soup" || p.mode == "grow" || p.mode == "long_lexeme" || p.mode == "regex_soup" || p.mode == "whitespace_only" || p.mode == "regex_empty");
     if (cx.st)
     {
         cx.st->add("mode." + p.mode);
@@ -502,6 +522,18 @@ static Plan gen_c18(uint64_t seed, int64_t index, bool thorough)
     else if (k < 80) { mode = "token_faults"; add_token_faults(op, rng, rng.range(1, 3), *m); }
     else if (k < 90) { mode = "byte_faults"; add_byte_faults(op, rng, rng.range(1, 2), m); }
     else { mode = "lex_fail_and_token_faults"; add_token_faults(op, rng, rng.range(1, 2), *m); op.lex_fail_call = int64_t(rng.below(op.toks.size() + 2)); }
+    if (rng.chance(1, 150))
+    {
+        // "arbitrary (index, length) pairs within range": a single answer longer than 64 KiB
+        static const std::vector<int> lens = { 65535, 65536, 65537, 70000, 131072 };
+        OpShape s2 = sh; s2.budget = 6; s2.buffers = { BUF_SIM, BUF_STRING, BUF_VIEW };
+        for (int tries = 0; tries < 6; ++tries)
+        {
+            PlanOp o2 = make_sentence_op(rng, key, s2);
+            o2.verbose = false;
+            if (stretch_one_lexeme(o2, rng, *m, size_t(rng.pick(lens)))) { op = o2; mode = "long_answer"; break; }
+        }
+    }
     return single_op_plan("C18", seed, index, mode, op);
 }
 
